@@ -8,6 +8,7 @@ WORLDS = {
     "w10": {"pkg": "pkg/cache", "harness": "w10", "weave": ["./pkg/cache/"]},
     "w11": {"pkg": "pkg/broker", "harness": "w11", "weave": MAIN_WEAVE},
     "w8": {"pkg": "internal/console", "harness": "w8", "weave": MAIN_WEAVE},
+    "w3": {"pkg": "pkg/metadata", "harness": "w3", "weave": MAIN_WEAVE},
 }
 
 def P(world, **kw):
@@ -53,6 +54,11 @@ PROPS = {
              level_text="generated PROXY v1/v2 headers (all families/commands, TLVs), header look-alikes and headerless streams, delivered in arbitrary fragments and cut at arbitrary bytes; mostly input generation, the simulator contributes the stream"),
     "C38": P("w8", quick_runs=4000, thorough_runs=300000, quick_budget_s=60, thorough_budget_s=900,
              required_probes=["c38.expired-token-used", "c38.logged-out-token-used", "c38.live-token-used", "c38.rate-limited"]),
+    "C17": P("w3", quick_runs=2500, thorough_runs=150000, quick_budget_s=100, thorough_budget_s=1200, required_probes=["c17.op"]),
+    "C18": P("w3", quick_runs=3000, thorough_runs=200000, quick_budget_s=100, thorough_budget_s=1500, required_probes=["c18.acquire", "c18.release"]),
+    "C20": P("w3", quick_runs=2500, thorough_runs=150000, quick_budget_s=100, thorough_budget_s=1500, required_probes=["c20.judged"]),
+    "C21": P("w3", quick_runs=2500, thorough_runs=150000, quick_budget_s=100, thorough_budget_s=1500, required_probes=["c21.judged", "c21.create-acked"],
+             level_note="brokers' EtcdStores only at this commit: the operator's snapshot merge is not in this world"),
 }
 
 NA = {
